@@ -21,8 +21,9 @@
 * `payload_guards` - what the real decoder does with the four failing inputs of
                      `json.loads(message.decode())` (invalid UTF-8, invalid JSON, nesting beyond the
                      recursion limit, an integer literal over the digit limit);
-* `detect_table`   - the class the real `detect_protocol` chose on 73 probe messages (every
-                     combination of the members it looks at, and batches mixing the classes);
+* `detect_table`   - the class the real `detect_protocol` chose on 89 probe messages (every
+                     combination of the members it looks at, batches mixing the classes, and
+                     messages that carry a message of another version as data);
 * `allow_batches`  - whether each class decodes an array / emits a batch;
 * the error-code constants (public class attributes) and AST fingerprints (drift => deeper run).
 
@@ -73,20 +74,24 @@ VARIANTS = {
     ('method', 'str'): ['m', '', 'rpc.x', '\ud800\n'],
     ('method', 'nonstr'): [None, 5, True, ['m'], {}, 1.5],
     ('params', 'absent'): [ABSENT],
-    ('params', 'list'): [[], [1, 'a'], [[]], [None]],
-    ('params', 'dict'): [{}, {'a': 1}, {'': []}],
+    ('params', 'list'): [[], [1, 'a'], [[]], [None], [{'jsonrpc': '2.0', 'method': 'm', 'id': 1}],
+                         [[{'result': 1, 'error': None, 'id': 2}]]],
+    ('params', 'dict'): [{}, {'a': 1}, {'': []}, {'msg': {'jsonrpc': '2.0', 'result': 1, 'id': 1}},
+                         {'jsonrpc': '2.0'}],
     ('params', 'other'): [None, 5, 'x', False, 1.5, ''],
     ('id', 'absent'): [ABSENT],
     ('id', 'null'): [None],
-    ('id', 'atom'): [1, 'x', 1.5, 0, '', -3, 10 ** 30, 1.0],
+    ('id', 'atom'): [1, 'x', 1.5, 0, '', -3, 10 ** 30, 1.0, '{"jsonrpc":"2.0"}'],
     ('id', 'other'): [True, [1], {'a': 1}, False, [], {}],
     ('result', 'absent'): [ABSENT],
     ('result', 'null'): [None],
-    ('result', 'nonnull'): [0, 'r', [], {}, False, 1.5, [None]],
+    ('result', 'nonnull'): [0, 'r', [], {}, False, 1.5, [None], {'jsonrpc': '2.0', 'method': 'm', 'id': 1},
+                            [{'jsonrpc': '1.0', 'method': 'm', 'params': [], 'id': 1}]],
     ('error', 'absent'): [ABSENT],
     ('error', 'null'): [None],
     ('error', 'wf'): [{'code': 1, 'message': 'm'}, {'code': True, 'message': ''},
-                      {'code': -5, 'message': 'm', 'data': [1]}, {'message': 'x', 'code': 10 ** 20}],
+                      {'code': -5, 'message': 'm', 'data': [1]}, {'message': 'x', 'code': 10 ** 20},
+                      {'code': 2, 'message': 'm', 'data': {'jsonrpc': '2.0', 'error': {}, 'id': None}}],
     ('error', 'other'): ['e', 7, {'code': 1.0, 'message': 'm'}, {'code': 1, 'message': 5}, {},
                          [], False, 0, '', {'code': 1}, {'message': 'm'}, {'code': None, 'message': 'm'}],
 }
@@ -465,6 +470,28 @@ def detect_probes():
     out += [5, 'x', None, True, 1.5, [], [v2], [v1], [v1b], [lo], [v2, v2], [v2, v1], [v1, v2], [v1, lo],
             [lo, v1], [lo, v2], [v2, lo], [lo, lo], [5], [v1, 5], [5, v2], [lo, 5, v1], [[]], [v1, v1b],
             [lo, lo, v2, v1]]
+    # a message of one version carrying a message of another version as DATA: only the top level
+    # (and, for a batch, the members' top level) decides
+    fw2 = {'jsonrpc': '2.0', 'method': 'x', 'id': 1}
+    fw1 = {'result': 1, 'error': None, 'id': 2}
+    out += [
+        {'method': 'm', 'params': [fw2], 'id': 5},
+        {'method': 'm', 'params': {'msg': fw2}, 'id': 5},
+        {'method': 'm', 'params': [[{'deep': [fw2]}]], 'id': 5},
+        {'result': fw2, 'error': None, 'id': 5},
+        {'result': [fw2], 'id': 5},
+        {'result': None, 'error': {'code': 1, 'message': 'm', 'data': fw2}, 'id': 5},
+        {'jsonrpc': '1.0', 'method': 'm', 'params': [fw2], 'id': 5},
+        {'method': 'm', 'params': [], 'id': '{"jsonrpc":"2.0"}'},
+        {'method': '"jsonrpc":"2.0"', 'params': ['"jsonrpc": "2.0"'], 'id': 5},
+        {'jsonrpc': '2.0', 'method': 'm', 'params': [fw1], 'id': 5},
+        {'jsonrpc': '2.0', 'result': fw1, 'id': 5},
+        {'jsonrpc': '2.0', 'result': {'jsonrpc': '1.0'}, 'id': 5},
+        [{'method': 'm', 'params': [fw2], 'id': 5}],
+        [{'method': 'm', 'params': [fw2], 'id': 5}, v1],
+        [{'result': fw2, 'error': None, 'id': 5}, lo],
+        [lo, {'method': 'n', 'params': {'m': fw2}}],
+    ]
     return out
 
 
